@@ -117,7 +117,8 @@ def handle (j : Json) : Except String Json := do
     let table : Ser.PyCfg := {
       seps := ← pairs "separators", singleChildFull := ← j.getObjValAs? Bool "single_child_full",
       combOps := ← pairs "comb_operators", combMethods := ← pairs "comb_methods",
-      combParens := ← j.getObjValAs? Bool "comb_parens" }
+      combParens := ← j.getObjValAs? Bool "comb_parens",
+      keepSubmodules := ← j.getObjValAs? Bool "keep_submodules" }
     let perr := fun (e : Ser.PErr) => match e with
       | .keyError k => Json.mkObj [("err", "KeyError"), ("what", k)]
       | .typeError w => Json.mkObj [("err", "TypeError"), ("what", w)]
@@ -131,7 +132,7 @@ def handle (j : Json) : Except String Json := do
       let ok := Ser.syntaxOk p
       let tree := Ser.reparse p
       let res := if !ok then Json.mkObj [("err", "SyntaxError")]
-        else match Ser.evalPy tree with
+        else match Ser.evalPy table.keepSubmodules tree with
           | .error e => Json.mkObj [("err", eerr e)]
           | .ok v' => Json.mkObj [("value", Codec.vJ v')]
       pure (Json.mkObj [("render", Json.mkObj [("tree", Codec.pyJ p)]), ("syntax_ok", toJson ok),
